@@ -5,10 +5,10 @@
    of the place it would go), the reported reason applies, the arena is unchanged; the unchecked
    forms panic exactly then (arena unchanged) and otherwise end in the same arena as the checked
    form; impossibility is decidable, so every call falls under one of the two cases; no other valid
-   call panics or diverges.  Release semantics (dbg = false); debug builds are covered by the
-   correspondence runs (debug + release). *)
+   call panics or diverges.  Stated for release semantics and transferred to debug builds by
+   C05_debug_and_release_alike / C05_debug_histories (proofs/DebugProofs.v). *)
 From IT Require Import Props.
-From IT.proofs Require Import Reach.
+From IT.proofs Require Import Reach DebugProofs.
 
 Theorem C05_checked_exact_reason_atomic : forall ops k x c F, valid_hist false init ops -> let w := reach ops in
   Repr (ar w) F -> usable (ar w) x -> usable (ar w) c ->
@@ -34,7 +34,20 @@ Theorem C05_others_total : forall ops o, valid_hist false init ops -> let w := r
      match o with OInsert _ false _ _ | OAppendValue _ _ => True | _ => False end).
 Proof. exact reach_total. Qed.
 
+(* debug and release builds alike: on every valid call in every reachable world the debug build
+   (all debug_assert!s, triangle checks and overflow checks active) returns exactly what the release
+   build returns — no debug assertion ever fires — so every theorem of this development transfers
+   to debug builds, for whole histories *)
+Theorem C05_debug_and_release_alike : forall ops o, valid_hist false init ops -> valid_op (ar (reach ops)) o ->
+  step true (reach ops) o = step false (reach ops) o.
+Proof. intros ops o H Hv. exact (debug_agrees (reach ops) o (reach_WF ops H) Hv). Qed.
+Theorem C05_debug_histories : forall ops, valid_hist true init ops ->
+  valid_hist false init ops /\ run true ops init = run false ops init.
+Proof. exact debug_reachable. Qed.
+
 Print Assumptions C05_checked_exact_reason_atomic.
+Print Assumptions C05_debug_and_release_alike.
+Print Assumptions C05_debug_histories.
 Print Assumptions C05_unchecked.
 Print Assumptions C05_impossible_decidable.
 Print Assumptions C05_others_total.
